@@ -551,6 +551,15 @@ fn body(ctx: &Ctx) -> (Summary, Meta) {
         all_states.lock().unwrap().extend(st);
         out
     });
+    sum.merge(run_jobs(ctx, "float-progressions", &[()], |_| "progressions".to_string(), |_| {
+        let mut out = JobOut::default();
+        let mut st = BTreeSet::new();
+        progressions_f32(&mut out, &mut st);
+        progressions_f64(&mut out, &mut st);
+        all_states.lock().unwrap().extend(st);
+        out.sample = Some(Json::str("f32: 2^24 - k + i * step; f64: 2^53 - k + i * step"));
+        out
+    }));
     sum.merge(run_jobs(ctx, "builder-validation", &[2usize, 3, 4, 5][..if quick { 3 } else { 4 }], |l| format!("builder:len{l}"), |&l| {
         let mut out = JobOut::default();
         builder_phase(l, &mut out);
@@ -565,13 +574,56 @@ fn body(ctx: &Ctx) -> (Summary, Meta) {
         sum.total.outcome(format!("impl={g:?},spec={w:?}"));
     }
     let meta = Meta {
-        rule: "every relation word over {<,=,>} up to the length bound, realised as prefix sums for f64/f32/i32/i64/u32/u8/u64 (i64, u64 also with unit steps on a base beyond 2^53), each as contiguous array, every-2nd-element view of a poisoned array and reversed view; every non-empty NaN mask on every word up to the NaN bound (f64, f32); long words (one base relation + <= 2 deviations; NaN at every position); run-structured words (every word of 2 runs, and of 3 runs with all / selected boundaries) up to length 2080; every word also realised with the type's extreme values (+-inf, MIN/MAX) in place of its largest and smallest level. Oracle: classifier written from the statement (counts of <,=,>); NaN: never Rising. states = distinct (implementation result, spec class, last relation) triples reached = reachable states of the product of the implementation automaton and the spec automaton. Non-trivial = word of length >= 2 or NaN vector. Phase builder-validation: every relation word of length 2..4 (5) x every NaN mask handed to Interp1DBuilder.x, Interp2DBuilder.x / .y, and as the y (x) axis of a grid whose other axis is a valid view into the same allocation starting at the same element (row / column of one table, stride-0 broadcast): accepted iff strictly rising.".into(),
+        rule: "every relation word over {<,=,>} up to the length bound, realised as prefix sums for f64/f32/i32/i64/u32/u8/u64 (i64, u64 also with unit steps on a base beyond 2^53), each as contiguous array, every-2nd-element view of a poisoned array and reversed view; every non-empty NaN mask on every word up to the NaN bound (f64, f32); long words (one base relation + <= 2 deviations; NaN at every position); run-structured words (every word of 2 runs, and of 3 runs with all / selected boundaries) up to length 2080; every word also realised with the type's extreme values (+-inf, MIN/MAX) in place of its largest and smallest level. Oracle: classifier written from the statement (counts of <,=,>); NaN: never Rising. states = distinct (implementation result, spec class, last relation) triples reached = reachable states of the product of the implementation automaton and the spec automaton. Non-trivial = word of length >= 2 or NaN vector. Phase float-progressions: x_i = fl(b + i*step) for b = 2^24 - k (f32) / 2^53 - k (f64), k < 8, step in {1/2,1,2,3}, 3..12 members, both signs - progressions that cross the power of two where the float spacing doubles; relations read off the actual values. Phase builder-validation: every relation word of length 2..4 (5) x every NaN mask handed to Interp1DBuilder.x, Interp2DBuilder.x / .y, and as the y (x) axis of a grid whose other axis is a valid view into the same allocation starting at the same element (row / column of one table, stride-0 broadcast): accepted iff strictly rising.".into(),
         bounds: format!("relation words of length 0..{maxlen} (exhaustive: {} words); NaN masks on words of length <= {nanmax}; long words of lengths {:?}{}", (0..=maxlen).map(|l| 3u64.pow(l as u32)).sum::<u64>(), if quick { longs.clone() } else { vec![14, 130] }, if quick { "" } else { " (every length in the closed interval)" }),
         assumptions: vec![],
         extra: vec![("product_states".into(), Json::Arr(st.iter().map(|(g, w, l)| Json::str(&format!("{g:?}/{w:?}/{l}"))).collect()))],
     };
     (sum, meta)
 }
+
+/// Arithmetic progressions computed in floating point, x_i = fl(b + i * step), across a power of two
+/// where the spacing of the type doubles: neighbouring members round onto the same value or keep
+/// their order depending on the exact position. The relation word is read off the actual values.
+macro_rules! progressions {
+    ($name:ident, $t:ty, $p:expr) => {
+        fn $name(out: &mut JobOut, states: &mut BTreeSet<(MonoSpec, MonoSpec, i8)>) {
+            let top = (2.0 as $t).powi($p);
+            for k in 0..8 {
+                for step in [1.0 as $t, 2.0, 3.0, 0.5] {
+                    for n in 3..=12usize {
+                        for sign in [1.0 as $t, -1.0] {
+                            let b = top - k as $t;
+                            let v: Vec<$t> = (0..n).map(|i| sign * (b + i as $t * step)).collect();
+                            let rel: Vec<i8> = v.windows(2).map(|w| if w[0] < w[1] { -1 } else if w[0] == w[1] { 0 } else { 1 }).collect();
+                            let want = mono_spec(&rel);
+                            for (form, got) in observe(&v) {
+                                out.evals += 1;
+                                out.transitions += rel.len() as u64;
+                                out.nontrivial += 1;
+                                match got {
+                                    Ok(g) => {
+                                        states.insert((g, want, rel.last().copied().unwrap_or(9)));
+                                        if g != want {
+                                            out.violate(
+                                                format!("{}:progression:2^{}-{k}:step{step}:n{n}:{sign}:{form}", stringify!($t), $p),
+                                                format!("{} progression {sign} * (2^{} - {k} + i * {step}), i < {n} = {v:?} (relations '{}', {form}): classified {g:?}, specification says {want:?}", stringify!($t), $p, show(&rel)),
+                                                Json::str(&format!("{v:?}")),
+                                            );
+                                        }
+                                    }
+                                    Err(p) => out.violate(format!("{}:progression:2^{}-{k}:step{step}:n{n}:{sign}:{form}", stringify!($t), $p), format!("monotonic_prop panicked: {p}"), Json::Null),
+                                }
+                            }
+                        }
+                    }
+                }
+            }
+        }
+    };
+}
+progressions!(progressions_f32, f32, 24);
+progressions!(progressions_f64, f64, 53);
 
 /// "such an axis can never pass builder validation": every short vector (relation words x NaN masks)
 /// handed to the builders as an axis - directly, and as the y axis of a grid whose x axis is a valid
